@@ -94,6 +94,15 @@ func runStop(p stParams) func(rc *core.RunCtx) {
 					per[tgt]++
 					if crashAllowed && g.Bool(0.15) {
 						m.Op = cPanic
+					} else if p.focus == "C08" && g.Bool(0.12) {
+						// in trees only actors without restart budget crash: they go
+						// down through the max-restarts path (children first) and
+						// nothing is re-created under an existing id
+						for _, sp := range all {
+							if sp.FullID() == tgt && sp.MaxRestarts == 0 {
+								m.Op = cPanic
+							}
+						}
 					}
 					scripts[c] = append(scripts[c], stOp{kind: 0, target: tgt, msg: m})
 				case 1:
@@ -103,7 +112,15 @@ func runStop(p stParams) func(rc *core.RunCtx) {
 					scripts[c] = append(scripts[c], stOp{kind: 2, target: tgt})
 					nstops++
 				case 3:
-					scripts[c] = append(scripts[c], stOp{kind: 3})
+					if p.focus == "C08" {
+						// ask a node for Children()/Parent() while shutdowns are in progress
+						m := env.NewMsg(fmt.Sprintf("c%d", c), per[tgt])
+						per[tgt]++
+						m.Op = cReport
+						scripts[c] = append(scripts[c], stOp{kind: 0, target: tgt, msg: m})
+					} else {
+						scripts[c] = append(scripts[c], stOp{kind: 3})
+					}
 				case 4:
 					// an actor stops/poisons another one (or itself)
 					issuer := ids[g.IntN(len(ids))]
@@ -141,9 +158,7 @@ func runStop(p stParams) func(rc *core.RunCtx) {
 		rc.PostRun = func(res *simrt.Result) {
 			if res.Crash != nil && !res.Crash.Harness {
 				rc.Violate2("C07", "process-crash/"+crashSite(res.Crash), "un-recovered panic in task %q: %s (raised in %s)", res.Crash.Task, core.FirstLine(res.Crash.Value), res.Crash.Origin)
-				if rc.Property != "C07" {
-					rc.Block("process crashed: %s", core.FirstLine(res.Crash.Value))
-				}
+				rc.Violate2("C08", "process-crash/"+crashSite(res.Crash), "un-recovered panic in task %q: %s (raised in %s)", res.Crash.Task, core.FirstLine(res.Crash.Value), res.Crash.Origin)
 			}
 			if res.EndReason == "steps" {
 				rc.Block("step budget exhausted")
@@ -469,7 +484,16 @@ func stopOracles(rc *core.RunCtx, env *Env, mon *Monitor, all []*Spec, parentOf 
 					phase = "during-or-after-stops"
 				}
 				if r.Seq > phase2 && r.Seq < phase3 {
-					continue // not a quiescent point
+					// not a quiescent point: the exact set is in flux, but a nil
+					// entry is never a child and Parent() never changes
+					simrt.Probe("children-read-during-shutdowns")
+					if r.HasNil {
+						rc.Violate2("C08", "Children-has-nil/concurrent", "%s: Children() contained a nil entry while children were stopping", id)
+					}
+					if r.Parent != par {
+						rc.Violate2("C08", "Parent-mismatch", "%s: Parent()=%q, spawned by %q", id, r.Parent, par)
+					}
+					continue
 				}
 				if r.HasNil {
 					rc.Violate2("C08", "Children-has-nil/"+phase, "%s: Children() contained a nil entry", id)
